@@ -80,14 +80,19 @@ PROPS = {
     ),
     'C17': dict(
         title='Every error points at the token that caused it',
-        verus_units=['state', 'compile'],
+        verus_units=['state', 'compile', 'lex'],
         kani_groups=[],
         design_ref='DESIGN.md section 5 / C17',
-        technique='Verus: fetch_and_run leaves ctx.ip on the failing instruction (so the debug-map lookup names its token); debug-map/code invariants on the emitters',
+        technique='Verus: fetch_and_run leaves ctx.ip on the failing instruction (so the debug-map lookup names its token); debug-map/code invariants on the emitters; '
+                  'token_location against a character-level model of the source text (line feeds before the token, characters since the line start, the line without its break)',
         level_text='Partial. Proved for all states and opcodes: an instruction that fails leaves the instruction pointer unchanged, also inside a called '
-                   'definition, so the run-time error location is the failing opcode\'s debug-map entry.',
-        level_note='NOT decided: line/column arithmetic of token_location (string code), that build-time errors carry the failing token (next_name and all immediate words).',
-        not_decided=['token_location line/column computation', 'build-time error token for every immediate word'],
+                   'definition, so the run-time error location is the failing opcode\'s debug-map entry. Proved for all source texts (any mix of LF/CR/CRLF, '
+                   'multi-byte characters) and every token position: token_location reports line = number of line feeds before the token, col = number of characters '
+                   'between the start of its line and the token, whole_line = exactly the token\'s line without its line break, token = the token itself, and the slice it takes is '
+                   'inside the text on character boundaries (no panic).',
+        level_note='Assumed (dependency contracts): arcstr Substr::range/parent/substr, str::char_indices yields (byte offset, char) in order, token_filename returns the first source with the parent\'s text. '
+                   'NOT decided: that build-time errors carry the failing token (next_name and all immediate words).',
+        not_decided=['build-time error token for every immediate word', 'token_filename (iterator closure chain, assumed)'],
     ),
     'C01': dict(
         title='Structured control flow compiles to bytecode that means what the source says',
@@ -211,7 +216,7 @@ PROPS = {
     ),
     'C08': dict(
         title='No source text, input or API call sequence can crash the interpreter',
-        verus_units=['bitstr', 'state', 'compile', 'cell', 'arith', 'collections', 'cursor'],
+        verus_units=['bitstr', 'state', 'compile', 'cell', 'arith', 'collections', 'cursor', 'lex'],
         kani_groups=['state_idx.rs', 'codec.rs'],
         design_ref='DESIGN.md section 5 / C08',
         technique='panic freedom of exactly the functions under contract: Verus checks every arithmetic operation for overflow, every index, unwrap, division, unreachable!/panic! site; Kani runs with overflow/bounds checks',
